@@ -121,6 +121,15 @@ check("C07", "DESIGN.md 5/C07",
       "its own spec, for the three outputs.",
       "Trusted: gamma/alpha of the materializer family; the mirror of the 7 structured formulas between MC_Missing and the harness.")
 
+check("C05", "DESIGN.md 5/C05",
+      "one TLA+ definition of the matrix (Materialize.tla, evaluated by TLC on every enumerated case) of which entry point, output type and "
+      "materializer are not parameters; replay of every case on entry points x outputs x materializers/data forms",
+      "the specification defines the result as a function of formula, data and options only; each enumerated case is executed through "
+      "sugar / Formula / ModelSpec / materializer class, for pandas / numpy / sparse output, with the pandas materializer, narwhals on the "
+      "pandas frame and narwhals on a pyarrow table (6 rotating combinations per case in the quick tier, all 36 in the thorough tier) and "
+      "every result must equal the specification's matrix, hence all agree.",
+      "Trusted: gamma including pyarrow.Table.from_pandas, alpha. Index labels are C06's business and are not compared here.")
+
 NOT_YET = "check not yet built in this round (planned; see DESIGN.md section 5)"
 
 
